@@ -263,6 +263,9 @@ class Model:
         if self.kind != "phase":
             for o in self.others():
                 ops.append(["detset", o])
+            # the detector-level resets: the full one and the partial one made between the steps of a
+            # non-destructive readout (pixel content kept, everything else emptied)
+            ops += [["detempty", "full"], ["detempty", "keep"]]
         return ops
 
     # -- seqx interface
@@ -351,6 +354,9 @@ class Model:
                 c.update(None)
             elif name == "eq":
                 self._eq(new, c, op[1], bad)
+            elif name == "detempty":
+                new.det.empty(reset=(op[1] == "full"))
+                c = getattr(new.det, kind)
             elif name == "detset":
                 other = self.make_other(st, op[1])
                 val = other._array
@@ -382,6 +388,17 @@ class Model:
                 exp = np.zeros((ROWS, COLS)) if (kind == "pixel" and name == "empty") else None
                 if canon_value(exp) != after:
                     bad("empty-wrong", f"{name} left {describe(c._array)}")
+        elif name == "detempty":
+            if exc is not None:
+                bad("empty-raised", f"detector.empty(reset={op[1] == 'full'}) raised {type(exc).__name__}: {exc}")
+            else:
+                if kind == "pixel":
+                    exp_c = canon_value(np.zeros((ROWS, COLS))) if op[1] == "full" else before
+                else:
+                    exp_c = None
+                if exp_c != after:
+                    bad("empty-wrong", f"detector.empty(reset={op[1] == 'full'}) left {describe(c._array)} in the {kind} "
+                        f"bucket (before: {before})")
         elif name in ("set", "set2d", "update", "update_list") or (name == "iadd" and before is None) \
                 or name == "set3d" or (name == "detset" and val is not None):
             valid = self._valid_for(name, op, val)
